@@ -10,3 +10,7 @@ add("C06", "step_feasible invariants per modelled CO environment (induction over
 add("C08", "telescoping theorems (return = objective; dense = sparse); objective recomputed by the Lean definition from the final "
            "implementation state and compared with the summed rewards", _note)
 add("C12", "obs_faithful theorems; observation recomputed by the Lean observer from the implementation state", _note)
+
+add("C19", "slice_transpose, slice_addElement_same/other, addElement_structure, isEqual_refl/symm/iff, assertDifferent_iff proved for all "
+           "trees/batch sizes/indices over JAX's own representation of a pytree (treedef + flat leaves); random pytrees and real environment "
+           "states run through the real helpers and the model", _note)
